@@ -366,6 +366,8 @@ def text(n, depth=0):
         return "%s[%s]" % (text(ks[0]), text(ks[1]))
     if k == "MemberExpr":
         return "%s.%s" % (text(ks[0]) if ks else "this", n.get("name"))
+    if k == "CXXMemberCallExpr" and MEMBER_OBJECTS and ks and strip(ks[0]).get("kind") == "MemberExpr" and kids(strip(ks[0])):
+        return "%s.%s(%s)" % (text(kids(strip(ks[0]))[0]), callee_name(n), ", ".join(text(a) for a in call_args(n)))
     if k in ("CallExpr", "CXXMemberCallExpr"):
         return "%s(%s)" % (callee_name(n) or text(ks[0]), ", ".join(text(a) for a in call_args(n)))
     if k == "CXXOperatorCallExpr":
@@ -403,6 +405,7 @@ def text(n, depth=0):
 
 
 _cf_cache = {}
+MEMBER_OBJECTS = False      # when True, text() renders obj.method(args) for member calls (used by rules written after this switch existed)
 
 
 def get(repo):
